@@ -47,10 +47,53 @@ fn cmd_c16_rq2sql(req: &Value) -> Value {
     }
 }
 
+// c16_trace {src}: source -> PL -> RQ with the compiler's debug log on; returns the RQ as JSON together with the lines that
+// hook `lowerer-op-trace` (cfg prqlc_verif, semantic/lowering.rs) logged as `verif:lowerer_op {"op":..,"d":..}`, in order:
+//   {ok: rq_json, ops: [{op, d}, ..]} | {err: [...], ops: [...]}
+// A panic propagates to main's guard (the log it leaves behind is discarded by the next log_start).
+fn cmd_c16_trace(req: &Value) -> Value {
+    const PREFIX: &str = "verif:lowerer_op ";
+    let _ = prqlc::debug::log_finish();
+    prqlc::debug::log_start();
+    let r = prqlc::prql_to_pl(s(req, "src")).and_then(prqlc::pl_to_rq);
+    let log = prqlc::debug::log_finish();
+    let mut ops: Vec<Value> = vec![];
+    let mut bad: Vec<String> = vec![];
+    if let Some(log) = log {
+        if let Ok(Value::Object(m)) = serde_json::to_value(&log) {
+            if let Some(Value::Array(es)) = m.get("entries") {
+                for e in es {
+                    if let Some(text) = e.get("kind").and_then(|k| k.get("Message")).and_then(|v| v.get("text")).and_then(|t| t.as_str()) {
+                        if let Some(rest) = text.strip_prefix(PREFIX) {
+                            match serde_json::from_str::<Value>(rest) {
+                                Ok(v) => ops.push(v),
+                                Err(e) => bad.push(format!("{e}: {rest}")),
+                            }
+                        }
+                    }
+                }
+            }
+        }
+    }
+    let mut out = match r {
+        Ok(rq) => match prqlc::json::from_rq(&rq) {
+            Ok(j) => json!({"ok": serde_json::from_str::<Value>(&j).unwrap_or(Value::Null)}),
+            Err(e) => json!({"ser_err": errs(e)}),
+        },
+        Err(e) => errs(e),
+    };
+    out["ops"] = json!(ops);
+    if !bad.is_empty() {
+        out["bad_ops"] = json!(bad);
+    }
+    out
+}
+
 pub fn dispatch(cmd: &str, req: &Value) -> Option<Value> {
     match cmd {
         "c16_rq" => Some(cmd_c16_rq(req)),
         "c16_rq2sql" => Some(cmd_c16_rq2sql(req)),
+        "c16_trace" => Some(cmd_c16_trace(req)),
         _ => None,
     }
 }
